@@ -171,6 +171,55 @@ def body(run):
             problems['rejected by validate_param_image / ParamStats'] = desc.get('validator_error')
         if problems:
             run.add_violation('parameter image does not describe the applied model', desc, observed=problems, signature=dict(kind='layout', parts=sorted(problems)))
+    # ---- every parameter BAND is valid only where both images are (also with in-painting on: fillnodata fills the offsets of rejected pixels, it
+    #      must not create offsets where the reference is invalid), on both processing grids, for every model
+    for k in range(run.scale(12, 80)):
+        family = ['same', 'avg2'][k % 2]
+        pair = st.make_compare_pair(run.work, rng, family, nbands=1)
+        ph, pw = pair['pm'].shape
+        off = pair['off']
+        rmask = pair['rmask'].copy()
+        # reference holes INSIDE the source footprint (a masked cloud, say)
+        for _ in range(rng.randint(1, 3)):
+            r0, c0 = off[0] + rng.randrange(ph), off[1] + rng.randrange(pw)
+            rmask[r0:r0 + rng.randint(1, 3), c0:c0 + rng.randint(1, 3)] = False
+        sfn, rfn = run.work / 'pm_src.tif', run.work / 'pm_ref.tif'
+        synth.write_tif(sfn, pair['src'], pair['geom'].src_transform, mask=pair['smask'])
+        synth.write_tif(rfn, pair['ref'], pair['geom'].ref_transform, mask=rmask)
+        model = ik.MODELS[k % 3]
+        proc = 'src' if family == 'same' and k % 4 < 2 else 'auto'
+        thresh = rng.choice([0.25, 0.6, 0.9]) if model == 'gain-offset' else None
+        kshape = rng.choice([(3, 3), (1, 3), (3, 5)])
+        try:
+            mbm, nblk = fz.pick_block_mem(sfn, rfn, proc, rng.choice([1, 4]), kshape)
+        except Exception:
+            mbm, nblk = 1e6, 1
+        res = fz.fuse(sfn, rfn, run.work / 'pm_out.tif', model=model, kernel_shape=kshape, proc_crs=proc, max_block_mem=mbm,
+                      model_config=dict(r2_inpaint_thresh=thresh, upsampling='nearest'), out_profile=dict(dtype='float32', nodata=NAN))
+        P = res['param']
+        if res['proc_crs'] == 'ref':
+            joint = np.zeros(pair['geom'].ref_shape, bool)
+            joint[off[0]:off[0] + ph, off[1]:off[1] + pw] = pair['pm']
+            joint &= rmask
+        elif family == 'same':
+            joint = pair['smask'] & rmask[off[0]:off[0] + ph, off[1]:off[1] + pw]
+        else:
+            continue
+        desc = dict(family=family, geom=pair['geom'].describe(), model=model, proc_crs=res['proc_crs'], r2_inpaint_thresh=thresh, kernel_shape=list(kshape),
+                    blocks=nblk, reference_holes_inside_source=True)
+        key = f'band-masks/{model}/{res["proc_crs"]}/inpaint={thresh is not None}'
+        dist[key] = dist.get(key, 0) + 1
+        run.count_case(('pm', k), True, desc if k < 2 else None)
+        problems = {}
+        names = ['gain', 'offset', 'r2']
+        for j in range(P['count']):
+            bm = np.isfinite(P['array'][j])
+            if bm.shape == joint.shape and (bm & ~joint).any():
+                problems[f'{names[j]} band valid where source or reference is not'] = [int(x) for x in np.argwhere(bm & ~joint)[0]]
+        if P['array'].shape[1:] == joint.shape and (P['mask'] & ~joint).any():
+            problems['parameter mask larger than the joint mask'] = [int(x) for x in np.argwhere(P['mask'] & ~joint)[0]]
+        if problems:
+            run.add_violation('parameter image is not the model that was applied', desc, observed=problems, signature=dict(kind='layout-e2e', parts=sorted(problems)))
     failing, nt = run.corr('layout', 'Corr.CheckC14', cases)
     for k in failing[:5]:
         run.add_break('correspondence-break', 'parameter image band layout / labels differ from Grid.Layout (param_index, label_of, validator)', metas[k])
